@@ -160,6 +160,88 @@ const POSITIONS: [(&str, &str, &str); 20] = [
     ("triggerbody", "CREATE TRIGGER tr AFTER INSERT ON t FOR EACH ROW BEGIN UPDATE t SET a = ", "; END"),
 ];
 
+/// iterative list / chain productions: (name, prefix, link, suffix, builds a left-deep tree);
+/// a chain of n links is prefix linkⁿ suffix
+const CHAINS: [(&str, &str, &str, &str, bool); 72] = [
+    ("from_comma", "SELECT * FROM t", ", t", "", true),
+    ("from_comma_alias", "SELECT * FROM t a", ", t b", "", true),
+    ("join", "SELECT * FROM t", " JOIN t ON 1 = 1", "", true),
+    ("inner_join", "SELECT * FROM t", " INNER JOIN t ON 1 = 1", "", true),
+    ("left_join", "SELECT * FROM t", " LEFT JOIN t ON 1 = 1", "", true),
+    ("left_outer_join", "SELECT * FROM t", " LEFT OUTER JOIN t ON 1 = 1", "", true),
+    ("right_join", "SELECT * FROM t", " RIGHT JOIN t ON 1 = 1", "", true),
+    ("full_join", "SELECT * FROM t", " FULL OUTER JOIN t ON 1 = 1", "", true),
+    ("cross_join", "SELECT * FROM t", " CROSS JOIN t", "", true),
+    ("natural_join", "SELECT * FROM t", " NATURAL JOIN t", "", true),
+    ("join_using", "SELECT * FROM t", " JOIN t USING (a)", "", true),
+    ("comma_and_join", "SELECT * FROM t", ", t JOIN t ON 1 = 1", "", true),
+    ("join_and_comma", "SELECT * FROM t", " CROSS JOIN t, t", "", true),
+    ("plus", "SELECT 1", " + 1", "", true),
+    ("minus", "SELECT 1", " - 1", "", true),
+    ("times", "SELECT 1", " * 1", "", true),
+    ("divide", "SELECT 1", " / 1", "", true),
+    ("div", "SELECT 1", " DIV 1", "", true),
+    ("concat", "SELECT 'a'", " || 'a'", "", true),
+    ("and", "SELECT 1 WHERE TRUE", " AND TRUE", "", true),
+    ("or", "SELECT 1 WHERE TRUE", " OR TRUE", "", true),
+    ("and_or", "SELECT 1 WHERE TRUE", " AND TRUE OR TRUE", "", true),
+    ("plus_times", "SELECT 1", " + 1 * 1", "", true),
+    ("on_and", "SELECT * FROM t JOIN t ON TRUE", " AND TRUE", "", true),
+    ("eq", "SELECT 1", " = 1", "", false),
+    ("lt", "SELECT 1", " < 1", "", false),
+    ("ne", "SELECT 1", " <> 1", "", false),
+    ("le", "SELECT 1", " <= 1", "", false),
+    ("is_null", "SELECT 1", " IS NULL", "", false),
+    ("is_not_null", "SELECT 1", " IS NOT NULL", "", false),
+    ("like", "SELECT 'a'", " LIKE 'a'", "", false),
+    ("not_like", "SELECT 'a'", " NOT LIKE 'a'", "", false),
+    ("in_chain", "SELECT 1", " IN (1)", "", false),
+    ("between", "SELECT 1", " BETWEEN 1 AND 1", "", false),
+    ("between_and", "SELECT 1 BETWEEN 1", " AND 1", "", false),
+    ("in_list", "SELECT 1 WHERE 1 IN (1", ", 1", ")", false),
+    ("not_in_list", "SELECT 1 WHERE 1 NOT IN (1", ", 1", ")", false),
+    ("in_list_strings", "SELECT 1 WHERE 'a' IN ('a'", ", 'a'", ")", false),
+    ("union", "SELECT 1", " UNION SELECT 1", "", false),
+    ("union_all", "SELECT 1", " UNION ALL SELECT 1", "", false),
+    ("intersect", "SELECT 1", " INTERSECT SELECT 1", "", false),
+    ("intersect_all", "SELECT 1", " INTERSECT ALL SELECT 1", "", false),
+    ("except", "SELECT 1", " EXCEPT SELECT 1", "", false),
+    ("except_all", "SELECT 1", " EXCEPT ALL SELECT 1", "", false),
+    ("case_when_arms", "SELECT CASE", " WHEN 1 THEN 1", " END", false),
+    ("case_simple_arms", "SELECT CASE 1", " WHEN 1 THEN 1", " ELSE 1 END", false),
+    ("function_args", "SELECT COALESCE(1", ", 1", ")", false),
+    ("concat_args", "SELECT CONCAT('a'", ", 'a'", ")", false),
+    ("values_rows", "INSERT INTO t VALUES (1)", ", (1)", "", false),
+    ("values_tuple", "INSERT INTO t VALUES (1", ", 1", ")", false),
+    ("insert_columns", "INSERT INTO t (a", ", a", ") VALUES (1)", false),
+    ("select_list", "SELECT 1", ", 1", "", false),
+    ("select_list_alias", "SELECT 1 AS a", ", 1 AS a", " FROM t", false),
+    ("order_by", "SELECT 1 FROM t ORDER BY a", ", a DESC", "", false),
+    ("group_by", "SELECT 1 FROM t GROUP BY a", ", a", "", false),
+    ("cte_list", "WITH c AS (SELECT 1)", ", c AS (SELECT 1)", " SELECT 1", false),
+    ("set_assignments", "UPDATE t SET a = 1", ", a = 1", "", false),
+    ("script", "SELECT 1", "; SELECT 1", "", false),
+    ("create_columns", "CREATE TABLE t (a INTEGER", ", a INTEGER", ")", false),
+    ("create_constraints", "CREATE TABLE t (a INTEGER", ", CHECK (a > 0)", ")", false),
+    ("column_constraints", "CREATE TABLE t (a INTEGER", " NOT NULL", ")", false),
+    ("index_columns", "CREATE INDEX i ON t (a", ", a", ")", false),
+    ("drop_tables", "DROP TABLE t", ", t", "", false),
+    ("grant_privileges", "GRANT SELECT", ", SELECT", " ON t TO r", false),
+    ("grant_grantees", "GRANT SELECT ON t TO r", ", r", "", false),
+    ("qualified_name", "SELECT a", ".a", "", false),
+    ("proc_statements", "CREATE PROCEDURE p() BEGIN ", "SET x = 1; ", "END", false),
+    ("proc_declares", "CREATE PROCEDURE p() BEGIN ", "DECLARE x INTEGER; ", "END", false),
+    ("proc_params", "CREATE PROCEDURE p(IN a INTEGER", ", IN a INTEGER", ") BEGIN SELECT 1; END", false),
+    ("window_partition", "SELECT SUM(1) OVER (PARTITION BY a", ", a", ") FROM t", false),
+    ("on_duplicate", "INSERT INTO t VALUES (1) ON DUPLICATE KEY UPDATE a = 1", ", a = 1", "", false),
+    ("unary_mix", "SELECT 1", " + - 1", "", true),
+];
+
+fn chain(name: &str, n: usize) -> Option<String> {
+    let c = CHAINS.iter().find(|c| c.0 == name)?;
+    Some(format!("{}{}{}", c.1, c.2.repeat(n), c.3))
+}
+
 fn tower(prod: &str, pos: &str, n: usize) -> Option<String> {
     let p = PRODUCTIONS.iter().find(|p| p.0 == prod)?;
     let q = POSITIONS.iter().find(|q| q.0 == pos)?;
@@ -194,7 +276,18 @@ fn worker() {
             let _ = o.flush();
             continue;
         }
-        let sql = if let Some(rest) = line.strip_prefix("tower:") {
+        let sql = if let Some(rest) = line.strip_prefix("chain:") {
+            let mut it = rest.split(':');
+            let name = it.next().unwrap_or("");
+            let n: usize = it.next().and_then(|s| s.parse().ok()).unwrap_or(0);
+            match chain(name, n) {
+                Some(s) => s,
+                None => {
+                    println!("badfam");
+                    continue;
+                }
+            }
+        } else if let Some(rest) = line.strip_prefix("tower:") {
             let mut it = rest.split(':');
             let prod = it.next().unwrap_or("");
             let pos = it.next().unwrap_or("");
@@ -241,6 +334,8 @@ fn worker() {
                 Err(e) => {
                     if e.message.contains("too deep") {
                         "toodeep".to_string()
+                    } else if e.message.contains("too long") {
+                        "toolong".to_string()
                     } else {
                         "err".to_string()
                     }
@@ -269,6 +364,7 @@ enum WOut {
     Ok(u128),
     Err(u128),
     TooDeep(u128),
+    TooLong(u128),
     Panic,
     Crash(String),
     Timeout,
@@ -302,28 +398,52 @@ impl Worker {
     }
 }
 
+/// CPU seconds (user + system) consumed so far by process `pid` (Linux /proc), None if unknown
+fn cpu_secs(pid: u32) -> Option<f64> {
+    let st = std::fs::read_to_string(format!("/proc/{}/stat", pid)).ok()?;
+    let rest = &st[st.rfind(')')? + 1..];
+    let f: Vec<&str> = rest.split_whitespace().collect();
+    // after the command name: state is field 0, utime field 11, stime field 12
+    let ut: f64 = f.get(11)?.parse().ok()?;
+    let stt: f64 = f.get(12)?.parse().ok()?;
+    Some((ut + stt) / 100.0)
+}
+
+/// Wait for one reply line. The limit is on the CPU time the worker spends on the request (so a
+/// machine loaded by other builds does not turn a 0.5 s parse into a "hang"), with a generous
+/// wall-clock cap. Ok(line) | Err(true) = limit exceeded | Err(false) = the worker died.
+fn wait_reply(w: &mut Worker, cpu_limit: f64) -> Result<String, bool> {
+    let pid = w.child.id();
+    let cpu0 = cpu_secs(pid).unwrap_or(0.0);
+    let t0 = Instant::now();
+    loop {
+        match w.rx.recv_timeout(Duration::from_millis(500)) {
+            Ok(l) => return Ok(l),
+            Err(std::sync::mpsc::RecvTimeoutError::Timeout) => {
+                let used = cpu_secs(pid).map(|c| c - cpu0).unwrap_or_else(|| t0.elapsed().as_secs_f64());
+                if used > cpu_limit || t0.elapsed().as_secs() > 1200 {
+                    return Err(true);
+                }
+            }
+            Err(_) => return Err(false),
+        }
+    }
+}
+
 struct Pool {
     w: Option<Worker>,
     restarts: u64,
-    slow_retries: u64,
 }
 
 impl Pool {
-    /// 5 s limit; a time-out is re-run once in a fresh worker with a 60 s limit so that a loaded
-    /// machine (other builds running) is not mistaken for a parser that does not return
+    /// limit: 4 × `timeout` seconds of CPU time of the worker on this request (see `wait_reply`)
     fn run_checked(&mut self, line: &str, timeout: Duration) -> WOut {
-        match self.run(line, timeout) {
-            WOut::Timeout => {
-                self.slow_retries += 1;
-                self.run(line, timeout * 12)
-            }
-            o => o,
-        }
+        self.run(line, timeout)
     }
 
     /// `Lexer::tokenize` in the worker: Ok(canonical token text) or the abnormal outcome
     fn lex(&mut self, text: &str, timeout: Duration) -> Result<String, WOut> {
-        for attempt in 0..2 {
+        {
             if self.w.is_none() {
                 self.w = Some(Worker::spawn());
             }
@@ -335,31 +455,36 @@ impl Pool {
                 self.restarts += 1;
                 return Err(WOut::Crash(st));
             }
-            let limit = if attempt == 0 { timeout } else { timeout * 12 };
-            match w.rx.recv_timeout(limit) {
-                Ok(l) => return Ok(l.strip_prefix("lexed ").unwrap_or(&l).to_string()),
-                Err(std::sync::mpsc::RecvTimeoutError::Timeout) => {
+            match wait_reply(w, timeout.as_secs_f64() * 4.0) {
+                Ok(l) => Ok(l.strip_prefix("lexed ").unwrap_or(&l).to_string()),
+                Err(true) => {
                     w.kill();
                     self.w = None;
                     self.restarts += 1;
-                    if attempt == 0 {
-                        self.slow_retries += 1;
-                        continue;
-                    }
-                    return Err(WOut::Timeout);
+                    Err(WOut::Timeout)
                 }
-                Err(_) => {
+                Err(false) => {
                     let st = w.child.wait().map(|s| format!("{}", s)).unwrap_or_default();
                     self.w = None;
                     self.restarts += 1;
-                    return Err(WOut::Crash(st));
+                    Err(WOut::Crash(st))
                 }
             }
         }
-        Err(WOut::Timeout)
     }
 
     fn run(&mut self, line: &str, timeout: Duration) -> WOut {
+        // generated inputs can be many megabytes: 15 more CPU seconds per MB of SQL text
+        let spec_len = |l: &str| -> usize {
+            let mut it = l.split(':');
+            match (it.next(), it.next(), it.next(), it.next()) {
+                (Some("chain"), Some(name), Some(n), _) => chain(name, 1).map(|s| s.len()).unwrap_or(0) / 2 * n.parse::<usize>().unwrap_or(0),
+                (Some("fam"), Some(name), Some(n), _) => family(name, 2).map(|s| s.len()).unwrap_or(0) / 2 * n.parse::<usize>().unwrap_or(0),
+                (Some("tower"), Some(p), Some(q), Some(n)) => tower(p, q, 1).map(|s| s.len()).unwrap_or(0) * n.parse::<usize>().unwrap_or(0),
+                _ => l.len() / 2,
+            }
+        };
+        let extra = 15.0 * (spec_len(line) as f64) / 1.0e6;
         if self.w.is_none() {
             self.w = Some(Worker::spawn());
         }
@@ -370,7 +495,7 @@ impl Pool {
             self.restarts += 1;
             return WOut::Crash(st);
         }
-        match w.rx.recv_timeout(timeout) {
+        match wait_reply(w, timeout.as_secs_f64() * 4.0 + extra) {
             Ok(l) => {
                 let mut it = l.split(' ');
                 let k = it.next().unwrap_or("");
@@ -379,17 +504,18 @@ impl Pool {
                     "ok" => WOut::Ok(ms),
                     "err" => WOut::Err(ms),
                     "toodeep" => WOut::TooDeep(ms),
+                    "toolong" => WOut::TooLong(ms),
                     "panic" => WOut::Panic,
                     other => WOut::Crash(format!("unexpected worker reply {}", other)),
                 }
             }
-            Err(std::sync::mpsc::RecvTimeoutError::Timeout) => {
+            Err(true) => {
                 w.kill();
                 self.w = None;
                 self.restarts += 1;
                 WOut::Timeout
             }
-            Err(_) => {
+            Err(false) => {
                 // stdout closed: the worker died (stack overflow = SIGSEGV / SIGABRT)
                 let st = w.child.wait().map(|s| format!("{}", s)).unwrap_or_default();
                 self.w = None;
@@ -662,10 +788,10 @@ fn main() {
          or is a nesting-family member. Distinct by hash of the input.",
     );
     rep.assumptions.push("Unicode classification of non-ASCII characters (is_whitespace, is_alphanumeric, to_uppercase) is taken from Rust's std and passed to the model with each input".into());
-    rep.assumptions.push("parser oracle: 8 MiB stack (the default main-thread size), 5 s per input, harness build profile (opt-level 1)".into());
+    rep.assumptions.push("parser / lexer oracle: worker process, 8 MiB stack (the default main-thread size), 20 s of worker CPU time per input plus 15 s per MB of SQL text (CPU, not wall clock, so that a loaded machine is not mistaken for a hang), 1.5 GiB address space, harness build profile (opt-level 1); the parsed statement is dropped inside the worker before it answers".into());
     let mut model = args.model();
     let mut rng = Rng::new(args.seed);
-    let mut pool = Pool { w: None, restarts: 0, slow_retries: 0 };
+    let mut pool = Pool { w: None, restarts: 0 };
     let timeout = Duration::from_secs(5);
     let mut parse_inputs: Vec<String> = vec![];
     let mut lexed_ok: std::collections::HashSet<String> = Default::default();
@@ -739,12 +865,13 @@ fn main() {
             WOut::Ok(_) => "parse_ok",
             WOut::Err(_) => "parse_error",
             WOut::TooDeep(_) => "parse_too_deep",
+            WOut::TooLong(_) => "parse_too_long",
             WOut::Panic => "parse_panic",
             WOut::Crash(_) => "parse_crash",
             WOut::Timeout => "parse_timeout",
         });
         match &o {
-            WOut::Ok(ms) | WOut::Err(ms) | WOut::TooDeep(ms) => slowest = slowest.max(*ms),
+            WOut::Ok(ms) | WOut::Err(ms) | WOut::TooDeep(ms) | WOut::TooLong(ms) => slowest = slowest.max(*ms),
             bad => {
                 let shown: String = s.chars().take(300).collect();
                 rep.fail(FailKind::Oracle, None, &format!("Parser::parse_sql did not return: {:?}", bad), &format!("input: {:?}\ninput hex: {}\noutcome: {:?}", shown, sx::hex_str(s), bad));
@@ -771,13 +898,14 @@ fn main() {
                     WOut::Ok(_) => "ok",
                     WOut::Err(_) => "parse_error",
                     WOut::TooDeep(_) => "too_deep",
+                    WOut::TooLong(_) => "too_long",
                     WOut::Panic => "panic",
                     WOut::Crash(_) => "crash",
                     WOut::Timeout => "timeout",
                 }
             ));
             match &o {
-                WOut::Ok(ms) | WOut::Err(ms) | WOut::TooDeep(ms) => slowest = slowest.max(*ms),
+                WOut::Ok(ms) | WOut::Err(ms) | WOut::TooDeep(ms) | WOut::TooLong(ms) => slowest = slowest.max(*ms),
                 bad => {
                     let text = family(f, (*n).min(3)).unwrap_or_default();
                     rep.fail(FailKind::Oracle, None, &format!("Parser::parse_sql did not return on nesting family {}: {:?}", f, bad), &format!("family {} with n = {} (n = 3 looks like: {})\nreplay: echo '{}' | harness/target/debug/c23 worker\noutcome: {:?}", f, n, text, line, bad));
@@ -825,6 +953,8 @@ fn main() {
                         WOut::Ok(_) => "ok",
                         WOut::Err(_) => "parse_error",
                         WOut::TooDeep(_) => "too_deep",
+                        WOut::TooLong(_) => "too_long",
+                    WOut::TooLong(_) => "too_long",
                         WOut::Panic => "panic",
                         WOut::Crash(_) => "crash",
                         WOut::Timeout => "timeout",
@@ -832,7 +962,7 @@ fn main() {
                 ));
                 rep.count(&format!("tower_depth_{}", n));
                 match &o {
-                    WOut::Ok(ms) | WOut::Err(ms) | WOut::TooDeep(ms) => slowest = slowest.max(*ms),
+                    WOut::Ok(ms) | WOut::Err(ms) | WOut::TooDeep(ms) | WOut::TooLong(ms) => slowest = slowest.max(*ms),
                     bad => {
                         let text = tower(p.0, q.0, 3).unwrap_or_default();
                         rep.fail(
@@ -842,6 +972,62 @@ fn main() {
                             &format!("production {} in position {} at depth {} (depth 3 looks like: {})\nreplay: echo '{}' | harness/target/debug/c23 worker\noutcome: {:?}", p.0, q.0, n, text, line, bad),
                         );
                     }
+                }
+            }
+        }
+    }
+    // ---- long chains: every iterative list / chain production at lengths around and far beyond the limit ---
+    let chain_lengths: [usize; 4] = [1000, 1001, 50000, 400000];
+    for (ci, c) in CHAINS.iter().enumerate() {
+        for n in chain_lengths {
+            // quick tier: the left-deep tree builders at 1000 / 1001 / 400 000; the other lists at 1000 / 1001 always and
+            // at 50 000 in every 3rd family (rotating with the seed); thorough: every family at every length
+            let rot = ci + args.seed as usize;
+            if args.quick() && ((c.4 && n == 50000) || (!c.4 && ((n == 50000 && rot % 3 != 0) || n == 400000))) {
+                continue;
+            }
+            if enough_failures(&mut rep) {
+                continue;
+            }
+            let line = format!("chain:{}:{}", c.0, n);
+            let o = pool.run_checked(&line, timeout);
+            rep.case(&line, true);
+            rep.count(&format!(
+                "chain_outcome_{}",
+                match &o {
+                    WOut::Ok(_) => "ok",
+                    WOut::Err(_) => "parse_error",
+                    WOut::TooDeep(_) => "too_deep",
+                    WOut::TooLong(_) => "too_long",
+                    WOut::Panic => "panic",
+                    WOut::Crash(_) => "crash",
+                    WOut::Timeout => "timeout",
+                }
+            ));
+            rep.count(&format!("chain_length_{}", n));
+            match &o {
+                WOut::Ok(ms) | WOut::Err(ms) | WOut::TooDeep(ms) | WOut::TooLong(ms) => slowest = slowest.max(*ms),
+                bad => {
+                    rep.fail(
+                        FailKind::Oracle,
+                        None,
+                        &format!("Parser::parse_sql (or the drop of its result) did not return on a chain of {} links of {}: {:?}", n, c.0, bad),
+                        &format!("chain {} with {} links (3 links look like: {})\nreplay: echo '{}' | harness/target/debug/c23 worker\noutcome: {:?}", c.0, n, chain(c.0, 3).unwrap_or_default(), line, bad),
+                    );
+                    continue;
+                }
+            }
+            // chain model (left-deep tree builders): accepted up to MAX_CHAIN_LENGTH links, "too long" beyond
+            if c.4 && matches!(c.0, "from_comma" | "join" | "cross_join" | "natural_join" | "left_join" | "plus" | "minus" | "times" | "divide" | "concat" | "and" | "or") {
+                let m = model.ask(&format!("chain {}", n));
+                let got = match &o {
+                    WOut::Ok(_) => format!("(ok {})", n),
+                    WOut::TooLong(_) => "(err tooLong)".to_string(),
+                    other => format!("{:?}", other),
+                };
+                rep.traces_validated += 1;
+                if got != m {
+                    rep.fail(FailKind::ModelDiff, None, "chain length limit: parser and chain model disagree", &format!("chain {} with {} links: parser {}, model {}", c.0, n, got, m));
                 }
             }
         }
@@ -861,10 +1047,10 @@ fn main() {
                 rep.case(&format!("parse {}", sx::hex_str(&sql)), true);
                 rep.count(match &o {
                     WOut::Ok(_) => "literal_prefix_ok",
-                    WOut::Err(_) | WOut::TooDeep(_) => "literal_prefix_error",
+                    WOut::Err(_) | WOut::TooDeep(_) | WOut::TooLong(_) => "literal_prefix_error",
                     _ => "literal_prefix_abnormal",
                 });
-                if !matches!(o, WOut::Ok(_) | WOut::Err(_) | WOut::TooDeep(_)) {
+                if !matches!(o, WOut::Ok(_) | WOut::Err(_) | WOut::TooDeep(_) | WOut::TooLong(_)) {
                     rep.fail(FailKind::Oracle, None, &format!("Parser::parse_sql did not return on a prefixed string literal: {:?}", o), &format!("input: {:?}\ninput hex: {}\noutcome: {:?}", sql, sx::hex_str(&sql), o));
                 }
             }
@@ -876,7 +1062,7 @@ fn main() {
     rep.extra.insert("parser_oracle_seconds".into(), serde_json::json!(t_parse.elapsed().as_secs_f64()));
     rep.extra.insert("slowest_parse_ms".into(), serde_json::json!(slowest as u64));
     rep.extra.insert("worker_restarts".into(), serde_json::json!(pool.restarts));
-    rep.extra.insert("timeouts_retried_with_60s_limit".into(), serde_json::json!(pool.slow_retries));
+    rep.extra.insert("limit".into(), serde_json::json!("20 s of worker CPU time per input + 15 s per MB of SQL text (wall clock cap 1200 s), 1.5 GiB address space"));
     rep.extra.insert(
         "explanation".into(),
         serde_json::json!("level partial: the lexer is modelled completely and its termination / span theorems are proved; of the parser only the nesting skeleton with its depth budget is modelled. 'No panic in any parser branch' rests on the worker-process search, not on proof."),
